@@ -6,9 +6,10 @@ package pipe
 //vf:job C09 thorough VF_C09_Offsets size=4
 //vf:job C09 quick VF_C09_MemReadStep blen=0..4
 //vf:job C09 quick VF_C09_MemWriteStep blen=0..4
+//vf:job C09 quick VF_C09_MemWriteStep blen=8,9,12
 //vf:job C09 quick VF_C09_FileReadStep blen=1..3
 //vf:job C09 quick VF_C09_FileWriteStep blen=1..3
-//vf:job C09 quick VF_C09_Sequential variant=0..5
+//vf:job C09 quick VF_C09_Sequential variant=0..7
 //vf:job C09 quick VF_C09_WrapNonPow2 file=0..1
 //vf:replayE C09 VF_C09_WrapNonPow2
 //vf:job C09 quick VF_C09_Proto writes=1..2 wn=1..2 rn=1..3 close=0..1
@@ -283,6 +284,27 @@ func VF_C09_Sequential() {
 		vfAssert(bn == 3 && berr == nil && an == 4096-3 && aerr == nil, "Buffered/Available disagree with the byte counts")
 		n, err = r.Read(nil)
 		vfAssert(n == 0 && err == nil, "zero-length read with data buffered")
+	case 6, 7: // zero-length reads around the writer's close: no error before the buffered bytes are drained
+		e := io.EOF
+		w.Write(d)
+		if variant == 6 {
+			w.Close()
+		} else {
+			e = errors.New("vf-writer-error")
+			w.CloseWithError(e)
+		}
+		n, err := r.Read(nil)
+		vfAssert(n == 0 && err == nil, "a zero-length read reports the writer's close while bytes are still buffered")
+		n, err = r.Read(buf[:0])
+		vfAssert(n == 0 && err == nil, "a zero-length read reports the writer's close while bytes are still buffered")
+		n, err = r.Read(buf)
+		vfAssert(n == 2 && err == nil && buf[0] == d[0] && buf[1] == d[1], "first read after writer close must drain")
+		n, err = r.Read(nil)
+		vfAssert(n == 0 && err == nil, "a zero-length read reports the writer's close while a byte is still buffered")
+		n, err = r.Read(buf)
+		vfAssert(n == 1 && err == nil && buf[0] == d[2], "second read after writer close must drain")
+		n, err = r.Read(buf)
+		vfAssert(n == 0 && (err == e || errors.Equal(err, e)), "drained reader must see the writer's error")
 	case 5: // fill the ring exactly: capacity bytes accepted without blocking, then drained in order
 		big := make([]byte, 4096)
 		big[0], big[4095] = d[0], d[1]
